@@ -2,6 +2,8 @@
 mod c05;
 mod c11;
 mod c13;
+mod c12;
+mod c14;
 mod c15;
 mod c16;
 mod coq;
@@ -13,6 +15,7 @@ mod obs;
 mod reggen;
 mod regprint;
 mod rng;
+mod rngwords;
 mod sets;
 mod tg;
 mod tgprops;
@@ -56,6 +59,8 @@ fn main() {
         }
     }));
     let meta = match prop {
+        "C12" => c12::generate(tier, seed, &out, nshards, replay.as_deref()),
+        "C14" => c14::generate(tier, seed, &out, nshards, replay.as_deref()),
         "C15" => c15::generate(tier, seed, &out, nshards, replay.as_deref()),
         "C11" => c11::generate(tier, seed, &out, nshards, replay.as_deref()),
         "C16" => c16::generate(tier, seed, &out, nshards, replay.as_deref()),
